@@ -3,7 +3,7 @@ import itertools
 from ..driver import Part
 from .. import common as C
 
-COQ_FILES = ["Ring.v", "RingProofs.v", "RingExec.v"]
+COQ_FILES = ["Ring.v", "RingProofs.v", "RingExec.v", "PropsRing.v"]
 THEOREMS = ["C14_ring_refines_fifo", "C14_no_out_of_bounds", "C14_len_is_pushes_minus_popped",
             "C14_pop_false_iff_empty", "C14_popN_first_min_n_len"]
 RULE = ("operation sequences over {Push x, Pop, PopN n, Len} on RingBuffer[int64]: exhaustive over a small "
